@@ -70,7 +70,9 @@ def run_check(pid, units, tier, seed, props_file=None, default_imports='', level
         st = 'full'
         why = None
         missing = [n for n in u.needs if not fn_status.get(n, {}).get('ok', False)]
-        if not ok_gen or missing:
+        if not u.theorems and not missing and ok_gen:
+            st = 'correspondence-only'
+        elif not ok_gen or missing:
             st, why = 'failed', f'translation failed: {missing or genlog[-300:]}'
         elif bad:
             st, why = 'failed', f'forbidden construct in development: {bad[:3]}'
